@@ -556,6 +556,7 @@ def ad_cloned_next(E, st, ptr, v, fid, item_ty=None):
             else:
                 s2.log('user', 'core::clone::Clone::clone', (E.tag_of(c[1]),))
                 E.stats['user_calls'] += 1
+                E.invalidate_examined(s2, ('clone',))     # a new clone: scans made for earlier clones are void
                 if v[1] == CLONED:
                     out.extend(escape(E, s2, 'user', 'Clone::clone'))
                 out.append(('ret', s2, some(('opq', ('clone', E.tag_of(c[1]))))))
@@ -1069,6 +1070,104 @@ def m_mu_new(E, st, fid, t, args, dest_ty):
     return ret(st, ('mu_init', args[0]))
 
 
+def _default_of(E, st, ty, fid, t):
+    """Default::default() of a type that the interpreter understands; None when it is user code"""
+    if ty is None:
+        return None
+    k = ty.get('k')
+    if k == 'prim':
+        if ty['name'] == 'bool':
+            return FALSE
+        if ty['name'] in ('usize', 'u8', 'u16', 'u32', 'u64', 'u128', 'isize'):
+            return I(0)
+    if k == 'adt' and ty['path'] == OPTION:
+        return NONE
+    if k == 'adt' and ty['path'] in ('core::slice::iter::Iter', 'core::slice::iter::IterMut') and ty['args'] \
+            and ty['args'][0].get('k') == 'adt' and ty['args'][0]['path'] == 'core::mem::maybe_uninit::MaybeUninit':
+        return 'EMPTY-SLICEIT'
+    if k == 'tuple' and not ty['elems']:
+        return UNIT
+    return None
+
+
+@model('core::mem::take', 'replaces *dest by Default::default() and returns the previous *dest')
+def m_take(E, st, fid, t, args, dest_ty):
+    d = args[0]
+    if d[0] != 'ref':
+        return E.opaque_call(st, fid, t, args, dest_ty)
+    old = E.load(st, d[2])
+    new = _default_of(E, st, dest_ty, fid, t)
+    if new == 'EMPTY-SLICEIT':
+        # the default slice iterator is empty: nothing can be reached through it
+        if old[0] == 'sliceit':
+            new = ('sliceit', old[1], old[3], old[3], old[4])
+        else:
+            new = None
+    if new is None:
+        return E.opaque_call(st, fid, t, args, dest_ty)
+    out = []
+    for s in E.store(st, d[2], new):
+        s.log('replace', E.tag_of(d), E.tag_of(new), E.tag_of(old))
+        out.append(('ret', s, old))
+    return out
+
+
+@model(["core::slice::iter::IterMut::<'a, T>::into_slice"], 'the not-yet-yielded elements, as a mutable slice')
+def m_into_slice(E, st, fid, t, args, dest_ty):
+    it = args[0]
+    if it[0] == 'sliceit':
+        return ret(st, ('ref', True, ('slice', it[1], it[2], it[3])))
+    return E.opaque_call(st, fid, t, args, dest_ty)
+
+
+# raw base pointer of the slot array + add(i) + copy_nonoverlapping(.., .., 1): a bitwise move of one slot
+@model(['core::slice::<impl [T]>::as_mut_ptr', 'core::slice::<impl [T]>::as_ptr'],
+       'raw pointer to the first slot of the storage; only add(i) and a one-element copy are modelled')
+def m_slice_as_ptr(E, st, fid, t, args, dest_ty):
+    s = _slice_of(E, st, args[0])
+    if s is None:
+        return E.opaque_call(st, fid, t, args, dest_ty)
+    mid, lo, hi, mut = s
+    return ret(st, ('rawbase', mid, lo, hi))
+
+
+@model(['core::ptr::mut_ptr::<impl *mut T>::add', 'core::ptr::const_ptr::<impl *const T>::add'],
+       'UNSAFE: pointer to element i; the offset must stay within the allocation (O1)')
+def m_ptr_add(E, st, fid, t, args, dest_ty):
+    b, i = args[0], args[1]
+    if b[0] != 'rawbase' or i[0] != 'int':
+        E.violate('MODEL', 'unmodelled', 'ptr::add', 'pointer arithmetic on a pointer that is not the tracked storage base')
+        return ret(st, ('opq', ('rawptr',)))
+    mid, lo, hi = b[1], b[2], b[3]
+    idx = E.add_terms(st, lo, i[1]) if not (isinstance(lo, int) and lo == 0) else i[1]
+    if E.struct_is_cap(st, mid, hi):
+        E.check_index(st, mid, idx, 'ptr::add')
+    else:
+        ok = st.zone.entails_lt(idx, hi)
+        E.oblig('O1', ok, 'ptr::add', 'pointer offset %s is not proved < slice end %s' % (idx, hi), 'unproven',
+                sample='%s < %s' % (idx, hi))
+        st.zone.add_lt(idx, hi)
+    return ret(st, ('rawslot', mid, idx, True))
+
+
+@model(['core::ptr::copy_nonoverlapping', 'core::intrinsics::copy_nonoverlapping', 'core::ptr::copy'],
+       'UNSAFE: copy_nonoverlapping(src, dst, 1) between slot pointers = move the content of src into dst')
+def m_copy_nonoverlapping(E, st, fid, t, args, dest_ty):
+    src, dst, cnt = args[0], args[1], args[2]
+    if src[0] != 'rawslot' or dst[0] != 'rawslot' or cnt != I(1):
+        E.violate('MODEL', 'unmodelled', 'copy_nonoverlapping', 'only a one-element copy between tracked slot pointers is modelled (got %r, %r, %r)' % (src[:2], dst[:2], cnt))
+        return ret(st, UNIT)
+    if t['callee']['name'] == 'copy_nonoverlapping':
+        E.oblig('O1', st.zone.entails_ne(src[2], dst[2]), 'copy_nonoverlapping',
+                'source slot %s and destination slot %s are not proved distinct' % (src[2], dst[2]), 'unproven',
+                sample='%s != %s' % (src[2], dst[2]))
+    v = E.slot_read(st, src[1], src[2], 'copy_nonoverlapping')
+    out = []
+    for s2 in E.slot_write(st, dst[1], dst[2], v, 'copy_nonoverlapping'):
+        out.append(('ret', s2, UNIT))
+    return out
+
+
 @model('core::mem::replace', 'stores src into *dest and returns the previous *dest')
 def m_replace(E, st, fid, t, args, dest_ty):
     d = args[0]
@@ -1254,6 +1353,59 @@ def m_min(E, st, fid, t, args, dest_ty):
             st.zone.add_le(r, x[1])
         elif x[0] == 'slen' and st.zone.entails_eq(x[1], 0):
             st.zone.add_le(r, x[2])
+    return ret(st, I(r))
+
+
+@model(['core::num::<impl usize>::checked_sub'], 'Some(a - b) when a >= b, else None')
+def m_checked_sub(E, st, fid, t, args, dest_ty):
+    a, b = args[0], args[1]
+    if a[0] != 'int' or b[0] != 'int':
+        return E.opaque_call(st, fid, t, args, dest_ty)
+    out = []
+    s1 = st.fork()
+    s1.zone.add_le(b[1], a[1])
+    if s1.zone.sat:
+        r = E.binop(s1, 'Sub', a, b)
+        s1.log('cond', ('Ge', a[1], b[1]), True)
+        out.append(('ret', s1, some(r)))
+    st.zone.add_lt(a[1], b[1])
+    if st.zone.sat:
+        st.log('cond', ('Ge', a[1], b[1]), False)
+        out.append(('ret', st, NONE))
+    return out
+
+
+@model(['core::num::<impl usize>::checked_add'], 'Some(a + b) unless it overflows')
+def m_checked_add(E, st, fid, t, args, dest_ty):
+    a, b = args[0], args[1]
+    if a[0] != 'int' or b[0] != 'int':
+        return E.opaque_call(st, fid, t, args, dest_ty)
+    s1 = st.fork()
+    r = E.binop(s1, 'AddWithOverflow', a, b)
+    out = [('ret', st, NONE)]
+    if r[0] == 'tuple':
+        ok, bad = E.split_bool(s1, r[1][1], False)
+        if ok is not None:
+            out.append(('ret', ok, some(r[1][0])))
+    return out
+
+
+@model(['core::num::<impl usize>::wrapping_sub', 'core::num::<impl usize>::wrapping_add'], 'wrapping arithmetic')
+def m_wrapping(E, st, fid, t, args, dest_ty):
+    a, b = args[0], args[1]
+    if a[0] != 'int' or b[0] != 'int':
+        return E.opaque_call(st, fid, t, args, dest_ty)
+    return ret(st, E.binop(st, 'Sub' if t['callee']['name'].endswith('sub') else 'Add', a, b))
+
+
+@model(['core::cmp::Ord::max'], 'the larger of the two')
+def m_max(E, st, fid, t, args, dest_ty):
+    a, b = args[0], args[1]
+    r = fresh('r')
+    st.zone.touch(r)
+    for x in (a, b):
+        if x[0] == 'int':
+            st.zone.add_le(x[1], r)
     return ret(st, I(r))
 
 
